@@ -6,8 +6,10 @@
   --   Cx.Impl.Blake2.blake2b (pr : Profile) (outlen : Nat) (key msg : Bytes) : Option Bytes
   --        = ContextDyn::new_keyed(outlen, key).update(msg).finalize_at(out[outlen]); `none` = panic
   --   Cx.Impl.Blake2.blake2s likewise;   blake2b_ctx / blake2s_ctx (bits) = the same through Context<BITS>
-  --   Profile.checked  = overflow-checks on  (dev profile: `+=` panics on overflow)
-  --   Profile.wrapping = overflow-checks off (release profile: `+=` wraps)
+  --   Profile.wrapping = THE CODE AS IT IS (since /repo commit ca094bf `increment_counter` uses `wrapping_add`,
+  --                      in every build profile; also what the old `+=` did in builds without overflow checks)
+  --   Profile.checked  = the old `t[0] += inc; t[1] += carry` in an overflow-checked build (panic at 2^32 / 2^64
+  --                      bytes; defect (i), kept as documentation together with its witness theorems)
   --   Context API (state = `Ctx W`; W = UInt64 with `b`, UInt32 with `s`); every fn takes the params `P`:
   --     ContextDyn.new P outlen, ContextDyn.new_keyed P outlen key          : Option (ContextDyn W)
   --     ContextDyn.update / update_mut P pr c input                         : Option (ContextDyn W)
@@ -31,7 +33,8 @@ namespace Cx.Impl.Blake2
 open Cx
 open Cx.Spec.Blake2 (Word Params wbytes toLE fromLE compressCore)
 
-/-- build profile: are `+`/`+=` overflow-checked? -/
+/-- arithmetic of the byte counter: `.wrapping` = `wrapping_add` (the current code, all builds);
+    `.checked` = the former `+=` compiled with overflow checks (historic, defect (i)) -/
 inductive Profile
   | checked
   | wrapping
@@ -100,7 +103,9 @@ def addAssign (w : Nat) (pr : Profile) (a b : Nat) : Option Nat :=
   | .checked => if a + b < 2 ^ w then some (a + b) else none
   | .wrapping => some ((a + b) % 2 ^ w)
 
-/-- `Engine::increment_counter`: `t[0] += inc; t[1] += if t[0] < inc { 1 } else { 0 }` -/
+/-- `Engine::increment_counter`: `t[0] = t[0].wrapping_add(inc); t[1] = t[1].wrapping_add(if t[0] < inc { 1 } else { 0 })`
+    (`.wrapping`); before commit ca094bf `t[0] += inc; t[1] += if t[0] < inc { 1 } else { 0 }` (`.checked` in
+    an overflow-checked build) -/
 def Engine.increment_counter (pr : Profile) (e : Engine W) (inc : Nat) : Option (Engine W) :=
   match addAssign (Word.bits W) pr e.t0 inc with
   | none => none
